@@ -61,9 +61,10 @@ prop('C07', contracts=[],
      technique='not decided deductively yet: bounded crash injection on a real shelve store (labelled bounded)',
      explanation='BOUNDED ONLY: digest naming, novelty flag, single copy and no dangling reference after every operation and after a crash at every file-system/table call of one update',
      assumptions=[A6, A7])
-prop('C08', contracts=[],
-     technique='not decided deductively yet: bounded histories with prefix-colliding names on a real shelve store (labelled bounded)',
-     explanation='BOUNDED ONLY: table/index bijection across reopen, chain resolution, next run id, exact-name remove/reset/trace',
+prop('C08', contracts=['c08_catalogue'],
+     technique=TECH + 'shelve.util.construct/subset proved, exact-addressing string lemma by cvc5/z3; histories with prefix-colliding names on a real store as bounded stand-in',
+     explanation='PROVED: util.construct builds "<parent>:parent___<name>[___version:<v>]"; util.subset(table, name, parents) returns exactly the entries of the table whose key is the constructed name of some given parent or that name followed by the version separator (loop invariant over the parents, dict/filter/items modelled, string operations uninterpreted in this code-level proof); LEMMA (string theory): among keys of the catalogue format that rule selects precisely the keys whose own name and parent equal the given ones, so a name that merely prefixes another is not selected. BOUNDED ONLY: table/index bijection across reopen, chain resolution, next run id, remove/reset/trace end to end.',
+     trusted_base=['str(int) as an injective function into digit strings', 'Version.asstring as a function of the version triple'],
      assumptions=[A3, A7])
 prop('C09', contracts=[],
      technique='not decided deductively yet: bounded enumeration of synthetic engines against the declared graph (labelled bounded)',
@@ -108,9 +109,10 @@ prop('C18', contracts=[],
      technique='not decided deductively yet: bounded grid of completion times/windows on the real chronicle (labelled bounded)',
      explanation='BOUNDED ONLY: append keeps earlier entries, complete appends once, find returns the exact window newest first',
      assumptions=[])
-prop('C19', contracts=[],
-     technique='not decided deductively yet: bounded path grammar on real directory trees and exhaustive endpoint x method x caller x hook table (labelled bounded)',
-     explanation='BOUNDED ONLY: containment of fe._static, anonymous access limited to the allow-list, fail-closed hook',
+prop('C19', contracts=['c19_frontend'],
+     technique=TECH + 'containment of fe._static over an abstract file system, allow-list versus command endpoints, fail-closed hook; bounded directory trees and endpoint table as stand-in',
+     explanation='PROVED for every request path, site roots and file-system state: every path fe._static opens for a request resolves (symbolic links followed) inside one of the two roots, or is named by the content of an html file already inside them (post.contain, loop invariant of the stylesheet loop); security.is_sanctioned lets a caller without certificate, when client certificates are configured, reach none of the command endpoints (scanned from the real DynamicContent registrations: run/reset/submit/snapshot); security.sanctioned returns False whenever the access hook raises. BOUNDED ONLY: DynamicContent.__render calls the handler only after sanctioned() (reflection over **kwds), real symlink trees, every endpoint x method.',
+     trusted_base=['pathlib: resolve() follows links and is idempotent; is_relative_to/is_dir/is_file/open as uninterpreted functions of an unchanging file system', 'site content (stylesheet links inside html files) is trusted configuration'],
      assumptions=[])
 prop('C20', contracts=['c20_delay'],
      technique=TECH + 'schedule._delay proved against a calendar specification in linear integer arithmetic for every instant and every accepted moment; defer/recurrence by the bounded clock sweep',
